@@ -44,6 +44,7 @@ func (p *Proc) Alive() bool {
 type FakeSup struct {
 	rec    *rec.Recorder
 	mu     sync.Mutex
+	lifeMu sync.Mutex // orders deaths against Kill / Terminate records
 	procs  map[string]*Proc
 	order  []*Proc
 	events chan supvmodel.Event
@@ -127,6 +128,13 @@ func (s *FakeSup) Exec(ctx context.Context, req *supvmodel.ExecRequest) error {
 
 // die marks the process dead (once) and delivers its single termination event.
 func (s *FakeSup) die(p *Proc, exit *int, signo *int, cause string) bool {
+	// death and its ProcExit record are one atomic step with respect to Kill/Terminate records (lifeMu)
+	s.lifeMu.Lock()
+	defer s.lifeMu.Unlock()
+	return s.dieLocked(p, exit, signo, cause)
+}
+
+func (s *FakeSup) dieLocked(p *Proc, exit *int, signo *int, cause string) bool {
 	p.mu.Lock()
 	if p.dead {
 		p.mu.Unlock()
@@ -182,13 +190,15 @@ func (s *FakeSup) Terminate(ctx context.Context, req *supvmodel.TerminateRequest
 		s.rec.Emit("sup", "Terminate", "name", req.Name, "err", "unknown")
 		return noSuch()
 	}
+	s.lifeMu.Lock()
+	defer s.lifeMu.Unlock()
 	s.rec.Emit("sup", "Terminate", "name", req.Name, "kind", p.Kind, "base", p.Base, "gen", p.Gen, "err", "", "alive", p.Alive())
 	p.mu.Lock()
 	onTerm := p.onTerm
 	p.mu.Unlock()
 	if onTerm == "exit" {
 		sig := 15
-		s.die(p, nil, &sig, "term")
+		s.dieLocked(p, nil, &sig, "term")
 	}
 	return nil
 }
@@ -200,13 +210,15 @@ func (s *FakeSup) Kill(ctx context.Context, req *supvmodel.KillRequest) error {
 		s.rec.Emit("sup", "KillRet", "name", req.Name, "err", "unknown")
 		return noSuch()
 	}
+	s.lifeMu.Lock()
+	defer s.lifeMu.Unlock()
 	s.rec.Emit("sup", "KillCall", "name", req.Name, "kind", p.Kind, "base", p.Base, "gen", p.Gen, "alive", p.Alive())
 	if p.Alive() && time.Until(req.Deadline) < 0 {
 		s.rec.Emit("sup", "KillRet", "name", req.Name, "kind", p.Kind, "base", p.Base, "gen", p.Gen, "err", "deadline")
 		return fmt.Errorf("invalid timeout while killing %s", req.Name)
 	}
 	sig := 9
-	s.die(p, nil, &sig, "kill")
+	s.dieLocked(p, nil, &sig, "kill")
 	s.rec.Emit("sup", "KillRet", "name", req.Name, "kind", p.Kind, "base", p.Base, "gen", p.Gen, "err", "")
 	return nil
 }
